@@ -1,10 +1,187 @@
 /-
-C17 — Indexed table queries return exactly what a full scan would.  (work in progress)
+C17 — Indexed table queries return exactly what a full scan would.
+
+Property theorems only; helper lemmas live in `Lemmas/C17.lean`, the executable model and the
+specification in `Model/C17.lean`.  `cfg : Cfg` says which of the proposed repairs
+(`fixes/C17-*.diff`) the modelled code contains; `Cfg.unfixed` is the pinned tree, `Cfg.fixed` the
+tree with all of them.  The theorems hold for every `cfg`; what differs is how much the
+well-formedness check `whereWF cfg …` has to exclude (each exclusion has a `_counterexample`).
 -/
 import CobaVerif.Lemmas.C17
 
 namespace Coba.C17
 
-theorem placeholder : True := trivial
+/-! ## bisect on a sorted segment -/
+
+/-- `bisect_left(c, v, lo, hi)` on a sorted segment of mutually comparable cells returns the
+position that separates the cells smaller than `v` from the others -/
+theorem bisect_left_spec (xs : List Cell) (v : Cell) (lo hi : Nat) (hle : lo ≤ hi) (hhi : hi ≤ xs.length)
+    (hs : SortedSeg xs lo hi) (hc : CmpSeg xs lo hi v) :
+    ∃ k, bisectLeft (listGet xs) v lo hi = .ok k ∧ lo ≤ k ∧ k ≤ hi ∧
+      (∀ i, lo ≤ i → i < k → (cellAt xs i).key.lt v.key = true) ∧
+      (∀ i, k ≤ i → i < hi → (cellAt xs i).key.lt v.key = false) :=
+  bisectLeft_spec (listGet xs) xs (listGet_of_lt xs) v lo hi hle hhi hs hc
+
+/-- `bisect_right`: separates the cells not greater than `v` from the greater ones -/
+theorem bisect_right_spec (xs : List Cell) (v : Cell) (lo hi : Nat) (hle : lo ≤ hi) (hhi : hi ≤ xs.length)
+    (hs : SortedSeg xs lo hi) (hc : CmpSeg xs lo hi v) :
+    ∃ k, bisectRight (listGet xs) v lo hi = .ok k ∧ lo ≤ k ∧ k ≤ hi ∧
+      (∀ i, lo ≤ i → i < k → v.key.lt (cellAt xs i).key = false) ∧
+      (∀ i, k ≤ i → i < hi → v.key.lt (cellAt xs i).key = true) :=
+  bisectRight_spec (listGet xs) xs (listGet_of_lt xs) v lo hi hle hhi hs hc
+
+/-- `my_bisect_left` / `my_bisect_right` (with their `c[l]==a` / `c[h-1]==a` shortcuts) find the same
+cuts on a list, a `SliceView` or a `ListView`, provided the segment is not empty or the empty-segment
+guard (P12) is present -/
+theorem my_bisect_spec (cfg : Cfg) (s : Seq) (xs : List Cell) (hsh : s.Shows xs)
+    (v : Cell) (lo hi : Nat) (hle : lo ≤ hi) (hhi : hi ≤ xs.length) (hne : cfg.guardEmpty = true ∨ lo < hi)
+    (hs : SortedSeg xs lo hi) (hc : CmpSeg xs lo hi v) (hnn : NoNoneSeg xs lo hi) (hv : v.key ≠ .none) :
+    ∃ bl br, myBisectLeft cfg s v lo hi = .ok bl ∧ myBisectRight cfg s v lo hi = .ok br ∧ Cuts xs v lo hi bl br :=
+  cuts_of_bisect cfg s xs hsh v lo hi hle hhi hne hs hc hnn hv
+
+/-- P12: without the guard an empty segment raises `IndexError` -/
+theorem my_bisect_empty_counterexample :
+    myBisectLeft Cfg.unfixed { base := [], sel := .all } (.int 1) 0 0 = .error .indexError ∧
+    myBisectLeft Cfg.fixed { base := [], sel := .all } (.int 1) 0 0 = .ok 0 := by decide +kernel
+
+/-! ## `_compare`: the bisect path selects what the scan path selects -/
+
+/-- On a whole sorted column, for every operator `= != < <= > >= in !in`, the ranges computed by
+bisection expand to exactly the row numbers the scan returns (in order, once each). -/
+theorem compare_bisect_eq_scan (cfg : Cfg) (s : Seq) (xs : List Cell) (hsh : s.Shows xs) (op : Op) (a : ArgV)
+    (hshape : argShape op a = true)
+    (hok : ProbeOK cfg xs 0 xs.length (probesOf a)) (hcmp : allComparable (probesOf a) = true)
+    (hdup : op = .isin → cfg.dedupIn = true ∨ (probesOf a).Pairwise (fun u v => u.key ≠ v.key))
+    (hcell : ∀ c ∈ xs, CellOK op a c) (hle : leGeOK cfg op a xs) :
+    ∃ rs, compareBisect cfg s 0 xs.length op a = .ok rs ∧ compareScan cfg xs op a = .ok (rs.flatMap rangeOf) :=
+  compare_bisect_eq_scan' cfg s xs hsh op a hshape hok hcmp hdup hcell hle
+
+/-- the hypotheses are satisfiable: column `[1,1,2,Missing]`, `in [2,1]` -/
+example : ∃ rs, compareBisect Cfg.unfixed { base := [.int 1, .int 1, .int 2, .missing], sel := .all } 0 4 .isin (.coll [.int 2, .int 1]) = .ok rs ∧
+    compareScan Cfg.unfixed [.int 1, .int 1, .int 2, .missing] .isin (.coll [.int 2, .int 1]) = .ok (rs.flatMap rangeOf) :=
+  ⟨[(0, 2), (2, 3)], by decide +kernel⟩
+
+/-! ## `where` -/
+
+/-- **where = plain filter.**  For a well-formed call (`whereWF`, a decidable check listing the
+forced hypotheses) on a table or on a `where` result, with any number of keywords given
+positionally, as `{op: value}` or as callables, on indexed and unindexed columns:
+if the plain row-by-row evaluation `whereS` of the documented conditions is defined and keeps the
+rows `rs`, then `Table.where` succeeds and the table it returns shows exactly `rs` (same order,
+same multiplicity), with the same columns and indexes. -/
+theorem where_eq_spec (cfg : Cfg) (t : Table) (pos : Option Op) (kws : List (Nat × Arg))
+    (R rs : List (List Cell)) (hwf : whereWF cfg t pos kws = true) (hR : t.rows = .ok R)
+    (hspec : whereS { columns := t.columns, rows := R } (kws.map (condOf pos)) = .ok rs) :
+    ∃ t', t.pwhere cfg Option.none pos kws = .ok t' ∧ t'.rows = .ok rs ∧
+      t'.columns = t.columns ∧ t'.indexes = t.indexes :=
+  where_eq_spec' cfg t pos kws R rs hwf hR hspec
+
+/-- a table used by the examples: columns a,b; indexed by a; rows (1,5) (1,6) (2,5) (Missing,7) -/
+def exT : Table :=
+  { columns := [0, 1], data := [(0, [.int 1, .int 1, .int 2, .missing]), (1, [.int 5, .int 6, .int 5, .int 7])],
+    sel := .all, indexes := [0] }
+
+/-- the hypotheses of `where_eq_spec` are satisfiable, already for the pinned tree: two keywords,
+one on the indexed column (bisect) and one on the other (scan) -/
+example : whereWF Cfg.unfixed exT Option.none [(1, .val (.scalar (.int 6))), (0, .dict .ge (.scalar (.int 2)))] = true := by
+  decide +kernel
+
+/-- **where with a row predicate** keeps exactly the rows the predicate accepts -/
+theorem where_pred_eq_spec (cfg : Cfg) (t : Table) (N : Nat) (hok : t.OK N) (hne : t.columns ≠ []) (p : RowPred)
+    (pos : Option Op) (kws : List (Nat × Arg)) (R : List (List Cell)) (hR : t.rows = .ok R) :
+    ∃ t', t.pwhere cfg (some p) pos kws = .ok t' ∧ t'.rows = .ok (R.filter p.eval) ∧
+      t'.columns = t.columns ∧ t'.indexes = t.indexes ∧ t'.OK N :=
+  where_pred_eq_spec' cfg t N hok hne p pos kws R hR
+
+/-! ### each conjunct of `whereWF` is needed (pinned tree = `Cfg.unfixed`) -/
+
+def rowsOf (r : Except Err Table) : Except Err (List (List Cell)) :=
+  match r with
+  | .ok t => t.rows
+  | .error e => .error e
+
+/-- P8: repeated probes of `in` on an indexed column repeat the rows -/
+theorem where_duplicate_probes_counterexample :
+    rowsOf (exT.pwhere Cfg.unfixed Option.none Option.none [(0, .val (.coll [.int 1, .int 1]))])
+      = .ok [[.int 1, .int 5], [.int 1, .int 6], [.int 1, .int 5], [.int 1, .int 6]] ∧
+    whereS { columns := [0, 1], rows := [[.int 1, .int 5], [.int 1, .int 6], [.int 2, .int 5], [.missing, .int 7]] }
+      [condOf Option.none (0, .val (.coll [.int 1, .int 1]))] = .ok [[.int 1, .int 5], [.int 1, .int 6]] ∧
+    whereWF Cfg.unfixed exT Option.none [(0, .val (.coll [.int 1, .int 1]))] = false ∧
+    whereWF Cfg.fixed exT Option.none [(0, .val (.coll [.int 1, .int 1]))] = true := by decide +kernel
+
+/-- P9: `{'!in': [5]}` on an unindexed column returns every row -/
+theorem where_notin_dict_counterexample :
+    rowsOf (exT.pwhere Cfg.unfixed Option.none Option.none [(1, .dict .notin (.coll [.int 5]))])
+      = .ok [[.int 1, .int 5], [.int 1, .int 6], [.int 2, .int 5], [.missing, .int 7]] ∧
+    whereS { columns := [0, 1], rows := [[.int 1, .int 5], [.int 1, .int 6], [.int 2, .int 5], [.missing, .int 7]] }
+      [condOf Option.none (1, .dict .notin (.coll [.int 5]))] = .ok [[.int 1, .int 6], [.missing, .int 7]] ∧
+    whereWF Cfg.unfixed exT Option.none [(1, .dict .notin (.coll [.int 5]))] = false ∧
+    whereWF Cfg.fixed exT Option.none [(1, .dict .notin (.coll [.int 5]))] = true := by decide +kernel
+
+/-- P10: the `<` of the first keyword is applied to the second one -/
+theorem where_operator_leak_counterexample :
+    rowsOf (exT.pwhere Cfg.unfixed Option.none Option.none [(0, .dict .lt (.scalar (.int 1))), (1, .val (.scalar (.int 6)))])
+      = .ok [[.int 1, .int 5], [.int 2, .int 5]] ∧
+    whereS { columns := [0, 1], rows := [[.int 1, .int 5], [.int 1, .int 6], [.int 2, .int 5], [.missing, .int 7]] }
+      ([(0, .dict .lt (.scalar (.int 1))), (1, .val (.scalar (.int 6)))].map (condOf Option.none)) = .ok [[.int 1, .int 6]] ∧
+    whereWF Cfg.unfixed exT Option.none [(0, .dict .lt (.scalar (.int 1))), (1, .val (.scalar (.int 6)))] = false ∧
+    whereWF Cfg.fixed exT Option.none [(0, .dict .lt (.scalar (.int 1))), (1, .val (.scalar (.int 6)))] = true := by decide +kernel
+
+/-- a table with a `Missing` cell in an unindexed column -/
+def exM : Table :=
+  { columns := [0, 1], data := [(0, [.int 1, .int 2]), (1, [.int 5, .missing])], sel := .all, indexes := [] }
+
+/-- P11: `<=` on an unindexed column containing `Missing` raises `TypeError` -/
+theorem where_le_missing_counterexample :
+    rowsOf (exM.pwhere Cfg.unfixed Option.none Option.none [(1, .dict .le (.scalar (.int 5)))]) = .error .typeError ∧
+    whereS { columns := [0, 1], rows := [[.int 1, .int 5], [.int 2, .missing]] }
+      [condOf Option.none (1, .dict .le (.scalar (.int 5)))] = .ok [[.int 1, .int 5]] ∧
+    whereWF Cfg.unfixed exM Option.none [(1, .dict .le (.scalar (.int 5)))] = false ∧
+    whereWF Cfg.fixed exM Option.none [(1, .dict .le (.scalar (.int 5)))] = true := by decide +kernel
+
+/-- the empty table indexed by its only column -/
+def exE : Table := { columns := [0], data := [(0, [])], sel := .all, indexes := [0] }
+
+/-- P12: `where` on an indexed column of an empty table raises `IndexError` -/
+theorem where_empty_indexed_counterexample :
+    rowsOf (exE.pwhere Cfg.unfixed Option.none Option.none [(0, .val (.scalar (.int 1)))]) = .error .indexError ∧
+    whereS { columns := [0], rows := [] } [condOf Option.none (0, .val (.scalar (.int 1)))] = .ok [] ∧
+    whereWF Cfg.unfixed exE Option.none [(0, .val (.scalar (.int 1)))] = false ∧
+    whereWF Cfg.fixed exE Option.none [(0, .val (.scalar (.int 1)))] = true := by decide +kernel
+
+/-- rows 3,1 indexed by a, then 2,0 inserted: `_indexes` still says a -/
+def exStale : Table := { columns := [0], data := [(0, [.int 1, .int 3, .int 2, .int 0])], sel := .all, indexes := [0] }
+
+/-- P13 (in every tree): on rows that are not in index order the bisection answers wrongly -/
+theorem where_stale_index_counterexample :
+    rowsOf (exStale.pwhere Cfg.fixed Option.none Option.none [(0, .val (.scalar (.int 0)))])
+      = .ok [[.int 1], [.int 3], [.int 2], [.int 0]] ∧
+    whereS { columns := [0], rows := [[.int 1], [.int 3], [.int 2], [.int 0]] }
+      [condOf Option.none (0, .val (.scalar (.int 0)))] = .ok [[.int 0]] ∧
+    whereWF Cfg.fixed exStale Option.none [(0, .val (.scalar (.int 0)))] = false := by decide +kernel
+
+/-- (in every tree) a probe that cannot be ordered against the cells raises `TypeError` on an
+indexed column while the plain evaluation of `=` finds no row -/
+theorem where_incomparable_probe_counterexample :
+    rowsOf (exT.pwhere Cfg.fixed Option.none Option.none [(0, .val (.scalar (.str [113])))]) = .error .typeError ∧
+    whereS { columns := [0, 1], rows := [[.int 1, .int 5], [.int 1, .int 6], [.int 2, .int 5], [.missing, .int 7]] }
+      [condOf Option.none (0, .val (.scalar (.str [113])))] = .ok [] ∧
+    whereWF Cfg.fixed exT Option.none [(0, .val (.scalar (.str [113])))] = false := by decide +kernel
+
+/-- (in every tree) `None` as a probe of `!in` is taken for the sentinel: every row comes twice -/
+theorem where_none_probe_counterexample :
+    rowsOf (exT.pwhere Cfg.fixed Option.none (some .notin) [(0, .val (.coll [.none]))])
+      = .ok [[.int 1, .int 5], [.int 1, .int 6], [.int 2, .int 5], [.missing, .int 7],
+             [.int 1, .int 5], [.int 1, .int 6], [.int 2, .int 5], [.missing, .int 7]] ∧
+    whereS { columns := [0, 1], rows := [[.int 1, .int 5], [.int 1, .int 6], [.int 2, .int 5], [.missing, .int 7]] }
+      [condOf (some .notin) (0, .val (.coll [.none]))] = .ok [[.int 1, .int 5], [.int 1, .int 6], [.int 2, .int 5]] ∧
+    whereWF Cfg.fixed exT (some .notin) [(0, .val (.coll [.none]))] = false := by decide +kernel
+
+/-- (in every tree) `> Missing`: the scan says `Missing > Missing`, the bisection does not -/
+theorem where_missing_probe_counterexample :
+    rowsOf (exT.pwhere Cfg.fixed Option.none Option.none [(0, .dict .gt (.scalar .missing))]) = .ok [] ∧
+    whereS { columns := [0, 1], rows := [[.int 1, .int 5], [.int 1, .int 6], [.int 2, .int 5], [.missing, .int 7]] }
+      [condOf Option.none (0, .dict .gt (.scalar .missing))] = .ok [[.missing, .int 7]] ∧
+    whereWF Cfg.fixed exT Option.none [(0, .dict .gt (.scalar .missing))] = false := by decide +kernel
 
 end Coba.C17
